@@ -77,6 +77,7 @@ type ReqD struct {
 type CaseD struct {
 	Types     []TypeD `json:"types"`      // 1-2
 	TPSession bool    `json:"tp_session"` // the service registered a third-party session (id tpSessionID)
+	DemonState string `json:"demon_state,omitempty"` // what the Demon session carries: "" | smb-child | downloads | smb-child+downloads
 	Reqs      []ReqD  `json:"reqs"`
 }
 
@@ -129,6 +130,7 @@ func genD(t *rapid.T) CaseD {
 		c.Types = append(c.Types, ty)
 	}
 	c.TPSession = rapid.Bool().Draw(t, "tpsession")
+	c.DemonState = rapid.SampledFrom([]string{"", "", "smb-child", "downloads", "smb-child+downloads"}).Draw(t, "demonstate")
 	n := rapid.IntRange(1, 6).Draw(t, "nreqs")
 	for i := 0; i < n; i++ {
 		r := ReqD{Via: rapid.SampledFrom([]string{"http", "http", "ext"}).Draw(t, "via")}
@@ -141,7 +143,7 @@ func genD(t *rapid.T) CaseD {
 			r.Kind = "tp"
 			r.Type = rapid.IntRange(0, nt-1).Draw(t, "type")
 			r.Mut = rapid.SampledFrom([]string{"exact", "exact", "exact", "exact", "plus1", "minus1", "swapped", "demon"}).Draw(t, "mut")
-			r.IDKind = rapid.SampledFrom([]string{"tp-session", "unknown", "demon-session"}).Draw(t, "idkind")
+			r.IDKind = rapid.SampledFrom([]string{"tp-session", "unknown", "demon-session", "demon-session", "demon-child"}).Draw(t, "idkind")
 			if rapid.IntRange(0, 2).Draw(t, "truncated") == 0 {
 				r.Len = rapid.IntRange(0, 24).Draw(t, "len")
 			} else {
@@ -185,6 +187,8 @@ func (c CaseD) build(r ReqD) []byte {
 		id = tpSessionID
 	case "demon-session":
 		id = agentIDs[0]
+	case "demon-child":
+		id = childID // the Demon's SMB child when the state has one, an unknown id otherwise
 	}
 	l := r.Len
 	if l < 0 {
@@ -426,6 +430,27 @@ func checkD(c CaseD) *core.Violation {
 	if code, _ := w.Register(demon); code != 200 {
 		return core.V("setup|register-refused", "registration of the Demon session refused: %d", code)
 	}
+	// the Demon session is not always a bare one: sessions that a third-party request can NAME carry
+	// what real sessions carry - a pivot child linked below them, transfers in progress
+	if strings.Contains(c.DemonState, "smb-child") {
+		ck, civ := keyOf(9, false)
+		child := agx.Sess{ID: childID, Key: ck, IV: civ, Meta: agx.DefaultMeta(childID)}
+		body := (&demonref.Enc{}).Int32(10).Int32(1).Bytes(child.Meta.InitPackage(child.ID, ck, civ)).B
+		w.Checkin(demon, []demonref.Sub{{Cmd: 2520, ReqID: 0, Body: body}})
+		if w.Agent(childID) == nil {
+			return core.V("setup|smb-child-refused", "the SMB child of the Demon session was not registered")
+		}
+	}
+	if strings.Contains(c.DemonState, "downloads") {
+		a := w.Agent(demon.ID)
+		a.AddRequest(agent.Job{RequestID: 0x0d0d, Command: agent.COMMAND_FS})
+		var subs []demonref.Sub
+		for fid := uint32(7); fid <= 8; fid++ {
+			body := (&demonref.Enc{}).Int32(2).Int32(0).Int32(fid).Int64(100).WString(fmt.Sprintf("C:\\loot\\report%d.txt", fid)).B
+			subs = append(subs, demonref.Sub{Cmd: agent.COMMAND_FS, ReqID: 0x0d0d, Body: body})
+		}
+		w.Checkin(demon, subs)
+	}
 
 	// HEAD's rule for "a third-party type is registered for this magic"
 	registered := func(magic uint32) bool {
@@ -631,7 +656,7 @@ func pendingClose(c CaseD, w *agx.World, sc *svcClient, r ReqD, body []byte, des
 	jobs := []job{{r.Via, body}}
 	if r.Pair {
 		r2 := r
-		r2.IDKind = map[string]string{"tp-session": "unknown", "unknown": "demon-session", "demon-session": "tp-session"}[r.IDKind]
+		r2.IDKind = map[string]string{"tp-session": "unknown", "unknown": "demon-session", "demon-session": "tp-session", "demon-child": "demon-session"}[r.IDKind]
 		if r2.Len < 16 {
 			r2.Len = 16
 		}
@@ -725,6 +750,9 @@ func classifyD(c CaseD) core.Class {
 			canon[ty.Number] = true
 		}
 	}
+	if c.DemonState != "" {
+		cl.Labels = append(cl.Labels, "demon-session-carries:"+c.DemonState)
+	}
 	gone := false
 	var regHit, nearMiss, short, leave, closedPending bool
 	first := ""
@@ -743,6 +771,9 @@ func classifyD(c CaseD) core.Class {
 			case canon[m] && !gone:
 				regHit = true
 				cl.Labels = append(cl.Labels, "registered-magic->service", "answer:"+r.Answer)
+				if (r.IDKind == "demon-session" || r.IDKind == "demon-child") && strings.Contains(c.DemonState, "smb-child") {
+					cl.Labels = append(cl.Labels, "registered-magic-names-demon-session-with-pivot-link")
+				}
 				if strings.HasPrefix(r.Answer, "close-") {
 					closedPending = true
 					if r.Pair {
